@@ -265,6 +265,11 @@ func runC13(rc *RunCtx) {
 			}
 		}
 	}
+	// the default byte order of the views is configured once, before any read (WithByteOrder is a setter on the view)
+	viewOrder := packet.ByteOrder(0)
+	if t.Choose(3) == 0 {
+		viewOrder = byteOrders[t.Choose(len(byteOrders))]
+	}
 	sharedView := t.Choose(2) == 0 // readers share one *Registers, or each makes its own view of the shared response
 	sigBase := fmt.Sprintf("fc%d|%s", fc, fr)
 	rc.Desc = map[string]any{"framing": fr.String(), "function": fc, "start": start, "quantity": qty, "readers": nreaders, "shared_registers_view": sharedView, "ops_reader0": fmt.Sprint(readers[0])}
@@ -276,7 +281,7 @@ func runC13(rc *RunCtx) {
 		}
 		rc.Shape("|")
 	}
-	rc.Shape("%s|q=%d|shared=%v", sigBase, bucket(qty), sharedView)
+	rc.Shape("%s|q=%d|shared=%v|vo=%d", sigBase, bucket(qty), sharedView, viewOrder)
 
 	s := NewSim(rc.Sched)
 	s.Tracing = rc.Tracing
@@ -322,6 +327,9 @@ func runC13(rc *RunCtx) {
 			}
 			snap = append([]byte(nil), rsp.Bytes()...)
 			view, err = rsp.(regsResponse).AsRegisters(uint16(start))
+			if err == nil && viewOrder != 0 {
+				view = view.WithByteOrder(viewOrder)
+			}
 			return err
 		}()
 		mu.Lock()
@@ -343,6 +351,9 @@ func runC13(rc *RunCtx) {
 				v, err := resp.(regsResponse).AsRegisters(uint16(start))
 				if err != nil {
 					return
+				}
+				if viewOrder != 0 {
+					v = v.WithByteOrder(viewOrder)
 				}
 				view = v
 			}
@@ -398,6 +409,9 @@ func runC13(rc *RunCtx) {
 			return
 		}
 		fregs, _ := fresh.(regsResponse).AsRegisters(uint16(start))
+		if fregs != nil && viewOrder != 0 {
+			fregs = fregs.WithByteOrder(viewOrder)
+		}
 		want := applyRdOp(fregs, fresh, start, ob.op, nil)
 		if ob.op.Kind >= 23 {
 			// a field's value must not depend on which other fields are extracted with it, nor on their order:
